@@ -668,6 +668,11 @@ def py_eq(env, a, b):
 
 @ghost()
 def contains(env, coll, x):
+    if isinstance(coll, V) and coll.kind == "const":
+        coll = coll.d
+    if isinstance(coll, (tuple, list, set, frozenset)):
+        xt = env.to_val(x)
+        return z3.Or(*[T.F_pyeq(xt, env.to_val(c)) for c in coll]) if coll else z3.BoolVal(False)
     return T.F_contains(env.to_val(coll), env.to_val(x))
 
 
@@ -844,8 +849,10 @@ def py(env, argnodes):
         try:
             if all((v.shadow is None) or (c in v.shadow) for v in vs) and fn(*[interp.concrete(v, c) for v in vs]):
                 good.append(c)
-        except Exception:  # noqa: BLE001
-            pass
+        except Exception as e:  # noqa: BLE001
+            import os
+            if os.environ.get("PYVC_DEBUG"):
+                print("py() raised on cell", c, type(e).__name__, e)
     if len(good) == len(live):
         return True
     return cell_formula(interp.ctx.roots[root], good)
